@@ -136,6 +136,20 @@ class World:
                 self.md[i].configure({"options": self.md[j].options, "components": {}})
             self.desc[i] = self.desc[i] + [["set_opts_like", 0, json.dumps(dict(self.md[j].options), sort_keys=True, default=str)]]
             return
+        if k == "call_deep":
+            # the caller's stack is already deep: the parse dies with RecursionError somewhere in the middle,
+            # the caller catches it and goes on using the instance
+            _deep_call(self.md[i], pool[op[2]], op[3])
+            return
+        if k == "edit_tokens":
+            # a caller post-processes the tokens it got back (token API), e.g. adds classes / ids
+            toks = self.md[i].parse(pool[op[2]])
+            for t in toks:
+                for x in [t] + list(t.children or []):
+                    if x.nesting >= 0 and x.type != "text":
+                        x.attrJoin("class", "edited")
+                        x.meta["seen"] = True
+            return
         md = self.md[i]
         if k == "call":
             _, _, meth, di, mode = op
@@ -149,6 +163,37 @@ class World:
             return
         self.desc[i].append(list(op))
         apply_config(md, op)
+
+
+def _deep_call(md, doc, margin):
+    import sys
+
+    def rec(n):
+        if n <= 0:
+            try:
+                md.render(doc)
+            except RecursionError:
+                pass
+            return
+        rec(n - 1)
+
+    # leave `margin` frames of head room below the interpreter's limit
+    depth = sys.getrecursionlimit() - len(_stack()) - margin
+    try:
+        rec(max(0, depth))
+    except RecursionError:
+        pass
+
+
+def _stack():
+    import sys
+
+    out = []
+    f = sys._getframe()
+    while f is not None:
+        out.append(f)
+        f = f.f_back
+    return out
 
 
 def apply_config(md, op):
@@ -265,6 +310,12 @@ def make_ops(tier, pool):
         ops.append(("setopt", i, "item", "inline_definitions", True))
         ops.append(("rrule", i, "text"))
         ops.append(("use", i, "mark"))
+    for di in (2, 8):
+        for margin in range(8, 46, 3):  # the fault lands in every phase of the call, also inside nested containers
+            ops.append(("call_deep", 0, di, margin))
+    for i in slots:
+        for di in (3, 5, 6):
+            ops.append(("edit_tokens", i, di))
     ops.append(("set_from", 1, 0, "set"))
     ops.append(("set_from", 0, 1, "set"))
     ops.append(("set_from", 1, 0, "configure"))
